@@ -11,8 +11,14 @@ import Driver.Util
   interface (store when told, one `advance` per batch);
 * a restart resumes past every used value.
 
+Store FAILURES (`storefail`, `openfail`, `pushfail`, `persistfail`, `advstfail`, `checkinfail`) are
+ordinary operations: the oracle stays on — a failed store makes nothing durable, so whatever is
+used afterwards must still be covered by what IS in storage.
+
 The oracle state is built only from the case header (start boundary) and the implementation's
-outputs (`store`d boundaries, used values); it does not look at the model. -/
+outputs (`store`d boundaries, used values); it does not look at the model. The cover predicates
+(`Counters.gCovers`, `Counters.cCovers`) are the ones the theorems `group_used_covered` /
+`checkin_used_covered` are stated with. -/
 namespace Driver.C12
 open Counters
 
@@ -43,8 +49,13 @@ def optS (o : Option Nat) : String := match o with | some b => toString b | Opti
 def parseD0 (s : String) : Option (Option Nat) :=
   if s = "none" then some Option.none else s.toNat?.map some
 
-/-- group counter values live in `1..mask`, a cycle of `mask` values -/
-def gAhead (v d : Nat) : Bool := v ≥ 1 && d ≥ 1 && ahead mask (v - 1) (d - 1)
+/-- group counter: the stored boundary `d` covers `v` (`Counters.gCovers`, the predicate of theorem
+`group_used_covered`) -/
+def gAhead (v d : Nat) : Bool := gCovers v d
+
+/-- a restart that resumes at `l` is past the used value `u` (an uninitialised counter, `l = 0`, is
+past nothing) -/
+def gPast (u l : Nat) : Bool := l ≥ 1 && gCovers u l
 
 /-- 2^64 minus a margin: event numbers beyond it are next to the wrap of the u64, where the
 property (stated for one cycle of the range) says nothing -/
@@ -56,6 +67,12 @@ def verdict (ora : Option String) (model impl : String) : String :=
   | Option.none => if model = impl then "ok" else s!"DIS {model}"
 
 /-! ### g -/
+
+def idxOf (ws : List String) : Option Nat :=
+  match ws with
+  | [] => some 0
+  | [i] => i.toNat?
+  | _ => Option.none
 
 def stepG (st : St) (ws : List String) (out : String) : St × String :=
   let o := words out
@@ -74,17 +91,33 @@ def stepG (st : St) (ws : List String) (out : String) : St × String :=
   | ["store"] =>
     let gs' := gStep st.gs .store
     let m := match st.gs.inflight with
-      | some (_, some b) => toString b
-      | _ => "-"
+      | some (_, b) => toString b
+      | Option.none => "-"
     -- oracle: the implementation's store becomes the durable boundary
     let odur := match out.toNat? with | some b => some b | Option.none => st.odur
     ({ st with gs := gs', odur := odur }, verdict Option.none m out)
-  | ["stash"] =>
-    let gs' := gStep st.gs .stash
+  | ["storefail"] =>
+    -- the store fails: nothing becomes durable (the oracle's boundary stays), the caller undoes
+    -- the reservation (`unreserve_global_group_data_ctr`)
+    let gs' := gStep st.gs .storeFail
     let m := match st.gs.inflight with
-      | some (v, Option.none) => toString v
-      | _ => "-"
+      | some _ => s!"{gs'.vol.live} {gs'.vol.boundary}"
+      | Option.none => "-"
     ({ st with gs := gs' }, verdict Option.none m out)
+  | "stash" :: is =>
+    match idxOf is with
+    | Option.none => (st, "BAD idx")
+    | some i =>
+      let gs' := gStep st.gs (.stash i)
+      let m := match st.gs.held[i]? with | some v => toString v | Option.none => "-"
+      ({ st with gs := gs' }, verdict Option.none m out)
+  | "abandon" :: is =>
+    match idxOf is with
+    | Option.none => (st, "BAD idx")
+    | some i =>
+      let gs' := gStep st.gs (.abandon i)
+      let m := match st.gs.held[i]? with | some v => toString v | Option.none => "-"
+      ({ st with gs := gs' }, verdict Option.none m out)
   | ["use", is] =>
     match is.toNat? with
     | Option.none => (st, "BAD idx")
@@ -115,7 +148,7 @@ def stepG (st : St) (ws : List String) (out : String) : St × String :=
       | [ls, _] =>
         match ls.toNat? with
         | some l =>
-          match st.oused.find? (fun u => !gAhead u l) with
+          match st.oused.find? (fun u => !gPast u l) with
           | some u => some s!"restart resumes at {l}, not past the used value {u}"
           | Option.none => Option.none
         | Option.none => Option.none
@@ -135,7 +168,7 @@ def wireOracle (st : St) (v : Nat) : Option String :=
 
 def resumeOracle (st : St) (l : Nat) : Option String :=
   if !st.oon then Option.none else
-  match st.oused.find? (fun u => !gAhead u l) with
+  match st.oused.find? (fun u => !gPast u l) with
   | some u => some s!"restart resumes at {l}, not past the counter {u} seen on the wire"
   | Option.none => Option.none
 
@@ -148,6 +181,12 @@ def wStores (st : St) (toks : List String) : St :=
       | Option.none => st
     else st) st
 
+/-- `initiate_group` after its critical section: `initiate_for_session` (fails when every exchange
+slot of the group session is taken) and the stash -/
+def wFinish (gs0 s1 : GSys) : GSys × String :=
+  let full := gs0.ready.length ≥ Consts.maxExchanges
+  (if full then gStep s1 (.abandon 0) else gStep s1 (.stash 0), if full then "err:NoSpaceExchanges" else "ok")
+
 def stepW (st : St) (ws : List String) (out : String) : St × String :=
   let o := words out
   match ws with
@@ -157,10 +196,9 @@ def stepW (st : St) (ws : List String) (out : String) : St × String :=
     | some rand =>
       let r := st.gs.vol.reserve rand
       let s1 := gStep (gStep st.gs (.reserve rand)) .store
-      let full := st.gs.ready.length ≥ Consts.maxExchanges
-      let s2 := if full then gStep s1 .abandon else gStep s1 .stash
+      let (s2, how) := wFinish st.gs s1
       let stores := match r.2.2 with | some b => s!"s{b}" | Option.none => "-"
-      let m := s!"{stores} {s2.vol.live} {s2.vol.boundary} {if full then "err:NoSpaceExchanges" else "ok"}"
+      let m := s!"{stores} {s2.vol.live} {s2.vol.boundary} {how}"
       (wStores { st with gs := s2 } o, verdict Option.none m out)
   | ["openfail", rs] =>
     match rs.toNat? with
@@ -169,18 +207,17 @@ def stepW (st : St) (ws : List String) (out : String) : St × String :=
       let r := st.gs.vol.reserve rand
       match r.2.2 with
       | some _ =>
-        -- the store fails: `initiate_group` returns the error, the reservation is dropped, nothing
-        -- became durable. Store failures are outside C12's quantifier: oracle off from here on.
-        let s1 := gStep st.gs (.reserve rand)
-        let s2 := { s1 with inflight := Option.none }
+        -- the store fails: `initiate_group` undoes the reservation and returns the error; nothing
+        -- became durable. The oracle stays ON: whatever is sent later must be covered by what IS
+        -- in storage.
+        let s2 := gStep (gStep st.gs (.reserve rand)) .storeFail
         let m := s!"- {s2.vol.live} {s2.vol.boundary} err:StdIoError"
-        (wStores { st with gs := s2, oon := false } o, verdict Option.none m out)
+        (wStores { st with gs := s2 } o, verdict Option.none m out)
       | Option.none =>
         -- no store is attempted: an ordinary `open`
         let s1 := gStep (gStep st.gs (.reserve rand)) .store
-        let full := st.gs.ready.length ≥ Consts.maxExchanges
-        let s2 := if full then gStep s1 .abandon else gStep s1 .stash
-        let m := s!"- {s2.vol.live} {s2.vol.boundary} {if full then "err:NoSpaceExchanges" else "ok"}"
+        let (s2, how) := wFinish st.gs s1
+        let m := s!"- {s2.vol.live} {s2.vol.boundary} {how}"
         (wStores { st with gs := s2 } o, verdict Option.none m out)
   | ["send", is] =>
     match is.toNat? with
@@ -202,9 +239,8 @@ def stepW (st : St) (ws : List String) (out : String) : St × String :=
           if how = "a" then (gStep (gStep s1 .store) .crash, s!"s{b} died")
           else (gStep s1 .crash, "- died")
         | Option.none =>
-          let full := st.gs.ready.length ≥ Consts.maxExchanges
-          (gStep (if full then gStep (gStep s1 .store) .abandon else gStep (gStep s1 .store) .stash) .crash,
-            if full then "- err:NoSpaceExchanges" else "- done")
+          let (s3, hw) := wFinish st.gs (gStep s1 .store)
+          (gStep s3 .crash, if hw = "ok" then "- done" else s!"- {hw}")
       let m := s!"{pre} {s2.vol.live} {s2.vol.boundary}"
       let st1 := wStores { st with gs := s2 } o
       let ora := match o.reverse with
@@ -292,6 +328,15 @@ def stepE (st : St) (ws : List String) (out : String) : St × String :=
       let m := if toks.isEmpty then "-" else " ".intercalate toks.reverse
       let (st1, ora) := eOracle st o
       ({ st1 with es := es' }, verdict ora m out)
+  | ["pushfail"] =>
+    -- `push` while the store fails: no number is handed out when an epoch is due
+    let r := st.es.vol.nextNumber
+    let es' := eStep st.es .pushFail
+    let m := match r.2.1 with
+      | some _ => "err"
+      | Option.none => s!"r{r.2.2}-{r.2.2}"
+    let (st1, ora) := eOracle st o
+    ({ st1 with es := es' }, verdict ora m out)
   | ["pushcrash"] =>
     let r := st.es.vol.nextNumber
     let es' := match r.2.1 with
@@ -315,9 +360,6 @@ def stepE (st : St) (ws : List String) (out : String) : St × String :=
   | _ => (st, "BAD op")
 
 /-! ### k / i -/
-
-/-- forward distance `v → d` within the u32 cycle is at most half the range (`v ≤ d` cyclically) -/
-def cCovers (v d : Nat) : Bool := fwd U32 v d ≤ U32 / 2
 
 def cBudgetOk (st : St) : Bool := st.ospent + 2 * st.oepoch + 2 < U32
 
@@ -343,6 +385,9 @@ def stepC (st : St) (icd : Bool) (ws : List String) (out : String) : St × Strin
     let m := toString st.cs.ctr.persistValue
     let odur := match out.toNat? with | some b => some b | Option.none => st.odur
     ({ st with cs := cs', odur := odur, opending := false }, verdict Option.none m out)
+  | ["persistfail"] =>
+    -- the store fails: nothing becomes durable, the boundary stays pending
+    ({ st with cs := cStep st.cs .persistFail }, verdict Option.none "err" out)
   | ["use"] =>
     let cs' := cStep st.cs .use
     let m := toString st.cs.ctr.next
@@ -371,6 +416,14 @@ def stepC (st : St) (icd : Bool) (ws : List String) (out : String) : St × Strin
       | Option.none => (st.odur, st.opending)
     ({ st with cs := cs', opeeked := false, odur := odur, opending := pend, ospent := st.ospent + 1 },
       verdict Option.none (optS r.2) out)
+  | ["advstfail"] =>
+    -- `advance_counter` whose store fails (if one is due): the implementation answers `err`, nothing
+    -- became durable; the application has been told (by the error) that the boundary is pending
+    let r := st.cs.ctr.advance
+    let cs' := cStep st.cs .advanceStoreFail
+    let m := if r.2.isSome then "err" else "-"
+    ({ st with cs := cs', opeeked := false, opending := st.opending || out = "err", ospent := st.ospent + 1 },
+      verdict Option.none m out)
   | ["jump", ds] =>
     match ds.toNat? with
     | Option.none => (st, "BAD delta")
@@ -391,38 +444,79 @@ def firstBad (rs : List String) : String :=
     | some r => r
     | Option.none => "ok"
 
+/-- the stores one `send_check_in` performs, as the model sees them, when the first `n` stores
+succeed and every later one fails (`n = none`: all succeed): (retry of a due boundary?, outcome) and
+(store of `advance_counter`?, outcome) -/
+def cwPlan (cs : CSys) (n : Option Nat) : Bool × Bool :=
+  let okRetry := match n with | Option.none => true | some k => k ≥ 1
+  let used := if cs.due then 1 else 0
+  let okAdv := match n with | Option.none => true | some k => k ≥ used + 1
+  (okRetry, okAdv)
+
+/-- one real `send_check_in`: out = `<counter> <stores joined by +|-> <how>`; `how` = ok | err:<Code>.
+The oracle is fed in the order of the real events: the retry store (if any), the value on the wire,
+the store of `advance_counter` (if any). -/
+def cwCheckin (st : St) (n : Option Nat) (o : List String) : St × String :=
+  let (okRetry, okAdv) := cwPlan st.cs n
+  let due := st.cs.due
+  let adv0 := st.cs.ctr.advance.2
+  match o with
+  | [c, ss, how] =>
+    let stores : List String := if ss = "-" then [] else (ss.splitOn "+")
+    if due && !okRetry then
+      -- nothing is sent, nothing stored
+      let (st1, _) := stepC st true ["persistfail"] "err"
+      let m := "wire:0: - err:StdIoError"
+      (st1, if s!"{c} {ss} {how}" = m then "ok" else s!"DIS {m}")
+    else
+      let (st1, r0, rest) : St × String × List String :=
+        if due then
+          match stores with
+          | x :: xs => let (a, b) := stepC st true ["persist"] x; (a, b, xs)
+          | [] => let (a, _) := stepC st true ["persist"] "?"; (a, s!"DIS retry store {st.cs.ctr.persistValue} missing", [])
+        else (st, "ok", stores)
+      let (st2, r1) := stepC st1 true ["use"] c
+      let (st3, r2) : St × String :=
+        if okAdv then
+          match rest with
+          | [x] => stepC st2 true ["advst"] x
+          | [] => stepC st2 true ["advst"] "-"
+          | _ => (st2, "DIS too many stores")
+        else
+          let (a, b) := stepC st2 true ["advstfail"] (if adv0.isSome then "err" else "-")
+          (a, if rest.isEmpty then b else "DIS store reported although it failed")
+      let expHow := if !okAdv && adv0.isSome then "err:StdIoError" else "ok"
+      let r3 := if how = expHow then "ok" else s!"DIS how {expHow}"
+      (st3, firstBad [r0, r1, r2, r3])
+  | _ => (st, "DIS unreadable checkin output")
+
 def stepCW (st : St) (ws : List String) (out : String) : St × String :=
   let o := words out
   match ws with
-  | ["checkin"] =>
-    -- `send_check_in` = `next()` -> message out -> `advance_counter` (store when told)
-    let expect := s!"{st.cs.ctr.next} {optS st.cs.ctr.advance.2}"
-    match o with
-    | [c, s] =>
-      let (st1, r1) := stepC st true ["use"] c
-      let (st2, r2) := stepC st1 true ["advst"] s
-      (st2, firstBad [r1, r2])
-    | _ =>
-      let (st1, _) := stepC st true ["use"] "?"
-      let (st2, _) := stepC st1 true ["advst"] "?"
-      (st2, s!"DIS {expect}")
-  | ["checkinfail"] =>
-    -- the store of `advance_counter` fails: `advance()` has already moved the in-memory boundary.
-    -- Store failures are outside C12's quantifier: oracle off from here on (if a store was due).
-    let adv := st.cs.ctr.advance.2
-    let expect := s!"{st.cs.ctr.next} - {if adv.isSome then "err:StdIoError" else "ok"}"
-    let (st1, _) := stepC st true ["use"] (match o with | c :: _ => c | [] => "?")
-    let (st2, _) := stepC st1 true ["adv"] (optS adv)
-    ({ st2 with oon := st2.oon && adv.isNone }, verdict Option.none expect out)
+  | ["checkin"] => cwCheckin st Option.none o
+  | ["checkinfail", ns] =>
+    match ns.toNat? with
+    | some n => cwCheckin st (some n) o
+    | Option.none => (st, "BAD n")
   | ["checkincrash", how, is] =>
+    -- (a due boundary is stored first; a power loss is injected at the FIRST store of the call)
+    let due := st.cs.due
     let adv := st.cs.ctr.advance.2
+    let (c, s, h, nx) : String × String × String × String := match o with
+      | [c, s, h, nx] => (c, s, h, nx)
+      | _ => ("?", "?", "?", "?")
+    if due then
+      -- the first store is the retry: power loss before / after it, nothing was sent
+      let (st1, _) := if how = "a" then stepC st true ["persist"] s else (st, "ok")
+      let stored := if how = "a" then toString st.cs.ctr.persistValue else "-"
+      let (st3, r3) := stepC st1 true ["boot", is] nx
+      let r4 := if c = "wire:0:" ∧ s = stored ∧ h = "died" then "ok" else s!"DIS wire:0: {stored} died {st3.cs.ctr.next}"
+      (st3, firstBad [r3, r4])
+    else
     -- what the harness can see of the store: nothing if the power went before it became durable
     let (advOp, stored, hw) : String × String × String := match adv with
       | some b => if how = "a" then ("advst", toString b, "died") else ("adv", "-", "died")
       | Option.none => ("advst", "-", "done")
-    let (c, s, h, nx) : String × String × String × String := match o with
-      | [c, s, h, nx] => (c, s, h, nx)
-      | _ => ("?", "?", "?", "?")
     let (st1, r1) := stepC st true ["use"] c
     -- a store that did not become durable is not reported: feed the model's own answer
     let (st2, r2) := stepC st1 true [advOp] (if advOp = "adv" then optS adv else s)
